@@ -40,6 +40,8 @@ class Report:
             r["samples"].append(sample)
 
     def floor(self, name, expected_min, found):
+        if getattr(self, "no_floors", False):
+            return
         self.floors.append((name, expected_min, found))
         if found < expected_min:
             self.violation("FLOOR", "floor:%s" % name,
